@@ -41,9 +41,13 @@ func (s *Server) Set(ctx context.Context, req *gnmi.SetRequest) (*gnmi.SetRespon
 			userName = md.Get("name")
 		}
 		// TODO replace the following with fine grained RBAC using OpenPolicyAgent Regos
-		if err := utils.TemporaryEvaluate(md); err != nil {
-			log.Warn(err)
-			return nil, errors.Status(errors.NewUnauthorized(err.Error())).Err()
+		// ExtractIncoming never returns nil: evaluate the caller's groups only when the request carries
+		// authenticated identity metadata (requests of deployments without authentication carry none)
+		if _, hasGroups := md["groups"]; userName != "" || hasGroups {
+			if err := utils.TemporaryEvaluate(md); err != nil {
+				log.Warn(err)
+				return nil, errors.Status(errors.NewUnauthorized(err.Error())).Err()
+			}
 		}
 	}
 
